@@ -148,15 +148,6 @@ def run(ctx):
     shared.tree_lock_decision(ctx, '8')
     # free-list mirror of the node tables moves in step with the on-disk head
     shared.free_list_mirror_in_step(ctx, '5m')
-    # 9. inside one commit the keyed changes of a column set (Set / Reference / Dereference of root keys) are planned before its node
-    # changes: the removal of a tree decides "last reference gone" from the root's count as the record under construction shows it,
-    # so a ReferenceTree of the same commit has to be in that record already
-    wp = ctx.body('db::IndexedChangeSet::write_plan')
-    if wp:
-        lk = lib.for_loops_over(wp, '.IndexedChangeSet.changes')
-        ln = lib.for_loops_over(wp, '.IndexedChangeSet.node_changes')
-        ctx.ob('9a0 plan-loops', 'anchor', wp.path, 'write_plan walks the keyed changes and the node changes of the set', len(lk) >= 1 and len(ln) >= 1, 'keyed %s node %s' % ([l['head'] for l in lk], [l['head'] for l in ln]))
-        if lk and ln:
-            lib.precedes(ctx, '9a keyed-changes-planned-before-node-changes', wp, [l['none'] for l in lk], [l['head'] for l in ln],
-                         'the loop over the node changes starts only after the loop over the keyed changes has finished')
+    # 9. keyed changes and tree removals of one commit are planned in the order they were given
+    shared.removal_planned_in_order(ctx, '9')
 
